@@ -125,3 +125,40 @@ def run(ctx):
             ctx.undecided("C19.R3", site, "chunking loop not recognised: %s" % norm(it))
     st = [v for v in assigned_values(ws, "address") if not isinstance(v, ast.AugAssign)]
     ctx.ob("C19.R3", site, "the first record address is the section's address", bool(st) and norm(st[0]) in ("section.address", "obj.get_section('code').address"), construct="start-address", detail=norm(st[0]) if st else "")
+    _address_bytes(ctx)
+
+
+def _address_bytes(ctx):
+    """R5: the address field of a record is an UNSIGNED big-endian number of 2, 3 or 4 bytes: every address below
+    256**size must be packed (0x8000 in an S1 record, 0x80000000 in an S3 record)."""
+    from ..sym import conjuncts
+    B = "ppci/utils/bitfun.py"
+    ctx.rule("C19.R5", "value_to_bytes_big_endian(value, size) packs every value in [0, 256**size) most significant byte first; it refuses nothing in that range (a signed range test would reject addresses with the top bit set)", floor=3)
+    fn = ctx.fn(B, "value_to_bytes_big_endian")
+    site = B + ":value_to_bytes_big_endian"
+    v, sz = fn.args.args[0].arg, fn.args.args[1].arg
+    UNSIGNED_OK = {"%s < 0" % v, "%s >= 1 << %s * 8" % (v, sz), "%s >= 1 << 8 * %s" % (v, sz), "%s >= 256 ** %s" % (v, sz), "%s >> %s * 8" % (v, sz), "%s >> 8 * %s" % (v, sz),
+                   "not 0 <= %s < 1 << %s * 8" % (v, sz), "not 0 <= %s < 256 ** %s" % (v, sz), "%s.bit_length() > %s * 8" % (v, sz), "%s.bit_length() > 8 * %s" % (v, sz)}
+    bad = []
+    for n in ast.walk(fn):
+        if isinstance(n, ast.Raise):
+            conds = [(" ".join(norm(c).split()), pol) for c, pol in conjuncts(n, fn, {})]
+            if not conds or not all((pol is True and c in UNSIGNED_OK) or (pol is True and c.startswith("not ") and c in UNSIGNED_OK) for c, pol in conds):
+                bad.append((n, "raise under %s" % (conds or "no condition")))
+        elif isinstance(n, ast.Assert):
+            t = " ".join(norm(n.test).split())
+            if t not in ("0 <= %s < 1 << %s * 8" % (v, sz), "0 <= %s < 256 ** %s" % (v, sz), "%s >= 0" % v, "isinstance(%s, int)" % v, "isinstance(%s, int)" % sz):
+                bad.append((n, "assert %s" % t))
+        elif isinstance(n, ast.Call) and norm(n.func) in ("inrange", "wrap_negative"):
+            bad.append((n, "signed range helper %s" % norm(n)))
+    ctx.ob("C19.R5", site, "nothing in [0, 256**size) is refused (no signed range test in front of the packing)", not bad, construct="full-unsigned-range", node=bad[0][0] if bad else None, detail="; ".join(t for _, t in bad))
+    from .. import sym
+    env = sym.single_assign_env(fn)
+    rets = [r for r in ast.walk(fn) if isinstance(r, ast.Return)]
+    val = " ".join(norm(sym.deep_inline(rets[0].value, env)).split()) if len(rets) == 1 else ""
+    ok = val in ("bytes((%s >> x * 8 & 255 for x in reversed(range(%s))))" % (v, sz), "bytes((%s >> x * 8 & 0xFF for x in reversed(range(%s))))" % (v, sz), "%s.to_bytes(%s, 'big')" % (v, sz))
+    ctx.ob("C19.R5", site, "byte k of the result is (value >> 8*(size-1-k)) & 0xFF: most significant byte first, exactly `size` bytes", ok, construct="big-endian-bytes", detail=val[:120])
+    tl = ctx.fn(F, "SRecord.to_line")
+    use = [c for c in ast.walk(tl) if isinstance(c, ast.Call) and norm(c.func) == "value_to_bytes_big_endian"]
+    ok = len(use) == 1 and norm(use[0].args[0]) == "self.address"
+    ctx.ob("C19.R5", F + ":SRecord.to_line", "the record's address goes through that helper with the address size of its record type", ok and len(use[0].args) == 2, construct="address-packed", detail=norm(use[0]) if use else "")
